@@ -24,7 +24,7 @@ def run(tier, only=None):
     ev = Evidence('C01', tier); work = Work('C01')
     ev.stubs += ['hook H-PB: PHOTONBUFFER_SIZE overridden through CMACIONIZE_VERIF_PHOTONBUFFER_SIZE (guarded, add-only, commit 04d4ccf in /repo)']
     ev.assumptions += ['pool invariant: free slots hold empty buffers (established by free_buffer: H1_free_buffer)', 'capacity not exhausted (stated in the property)']
-    ev.outside += ['the cross-thread termination protocol of TaskBasedIonizationSimulation (virtual task contexts, OpenMP region): not encodable as a whole', 'H2/H3/H5 (traversal, re-emission and premature-launch task bodies): H2 was built (harness/c01_traversal.cpp, kept for reference) but cbmc symex does not finish in 15-30 min even with 2 live directions (27-direction loop over symbolic buffer indices into arrays of PhotonPacket structs); not registered', 'concurrent callers of get_photon_batch (the primitives are C08)',
+    ev.outside += ['the cross-thread termination protocol of TaskBasedIonizationSimulation (virtual task contexts, OpenMP region): not encodable as a whole', 'H2/H3/H5 (traversal, re-emission and premature-launch task bodies): H5 was written too (harness/c01_premature.cpp: cbmc runs out of 24 GB in symex, the real code indexes the PhotonBuffer array with a symbolic slot); H2 was built (harness/c01_traversal.cpp, kept for reference) but cbmc symex does not finish in 15-30 min even with 2 live directions (27-direction loop over symbolic buffer indices into arrays of PhotonPacket structs); not registered', 'concurrent callers of get_photon_batch (the primitives are C08)',
                    'paper argument: per-task conservation lemmas + C08 primitives => requested = terminated; written here, not machine-checked']
     try:
         hs = [h for h in harnesses(tier) if not only or h.name.startswith(only)]
